@@ -472,7 +472,7 @@ func (g *Gen) valueFor(qd []byte) string {
 	if g.r.Chance(g.P.Hostile) {
 		switch g.r.Pick(9) {
 		case 0, 1, 2, 3:
-			return HostileSpelling(val, g.r.Pick(5))
+			return HostileSpelling(val, g.r.Pick(9))
 		case 4:
 			return val[:len(val)-1] // odd length
 		case 5:
@@ -861,7 +861,8 @@ func (g *Gen) op(op string, v *view) []byte {
 		}
 		rcp := hex.EncodeToString(g.user().Addr.Bytes())
 		if g.r.Chance(g.P.Hostile) {
-			rcp = []string{"", "0x" + rcp, rcp[:10], rcp + rcp, "zz"}[g.r.Pick(5)]
+			// (the last four: valid hex followed or interrupted by something that is not hex)
+			rcp = []string{"", "0x" + rcp, rcp[:10], rcp + rcp, "zz", rcp + "\n", rcp[:20] + "O" + rcp[21:], rcp + " ", rcp[:39]}[g.r.Pick(9)]
 		}
 		return g.tx(s, &bridgetypes.MsgWithdrawTokens{Creator: s.Bech(), Recipient: rcp, Amount: rawCoin(g.amount(g.c.W.Cfg.UserBalance))})
 	case "claimDeposits":
@@ -900,6 +901,17 @@ func (g *Gen) op(op string, v *view) []byte {
 		ts := uint64(g.c.Time.UnixMilli())
 		if agg, t, err := a.OracleKeeper.GetCurrentAggregateReport(v.ctx, qid); err == nil && agg != nil {
 			ts = uint64(t.UnixMilli())
+		}
+		if g.r.Chance(0.5) {
+			// an OLDER aggregate of the query (one that has a successor by now), possibly one that was attested before
+			var all []uint64
+			_ = a.OracleKeeper.Aggregates.Walk(v.ctx, collections.NewPrefixedPairRange[[]byte, uint64](qid), func(k collections.Pair[[]byte, uint64], _ oracletypes.Aggregate) (bool, error) {
+				all = append(all, k.K2())
+				return false, nil
+			})
+			if len(all) > 1 {
+				ts = all[g.r.Pick(len(all)-1)]
+			}
 		}
 		if g.r.Chance(g.P.Hostile * 0.3) {
 			ts++
@@ -967,7 +979,8 @@ func (g *Gen) op(op string, v *view) []byte {
 		case 0:
 			m = &minttypes.MsgInit{Authority: gov}
 		case 1:
-			m = &oracletypes.MsgUpdateParams{Authority: gov, Params: oracletypes.Params{MinStakeAmount: math.NewInt([]int64{1_000_000, 2_000_000, 1_000_000}[g.r.Pick(3)])}}
+			// also far below one whole token: reporters whose stake is worth no power at all become admissible
+			m = &oracletypes.MsgUpdateParams{Authority: gov, Params: oracletypes.Params{MinStakeAmount: math.NewInt([]int64{1_000_000, 2_000_000, 1, 400_000, 2_500_000}[g.r.Pick(5)])}}
 		case 2:
 			cl := [][]byte{g.spots[0], g.spots[1], g.spots[2], g.spots[3]}
 			if g.P.GovHalt && g.r.Chance(0.5) {
